@@ -60,6 +60,34 @@ def cases(rng, tier):
         rows = [sorted(_dyadic_row(rng, rng.choice([1, 2, 3, 4, 6]), rng.choice([3, 4, 6])), reverse=True) for _ in range(L)]
         thr = Fraction(1, rng.choice([1, 2, 3, 4, 7, 16, 50, 64, 300, 4096]))
         yield ("gen_sorted", {"rows": [[frac(x) for x in r_] for r_ in rows], "thr": frac(thr)})
+    # the public function on basis objects; half of them after a history (probabilities read, coefficients re-assigned)
+    for _ in range(N // 4):
+        L = rng.randint(1, 3)
+        rows, signs, olds = [], [], []
+        for _ in range(L):
+            n = rng.choice([2, 3, 4, 6])
+            row = _dyadic_row(rng, n, rng.choice([3, 4, 6]))
+            rows.append(row)
+            signs.append([rng.choice([1, -1]) for _ in row])
+            olds.append([frac(x) for x in _dyadic_row(rng, n, 4)] if rng.random() < 0.5 else None)
+        Nv = rng.choice([None, Fraction(2), Fraction(5), Fraction(17), Fraction(64), Fraction(1000), Fraction(rng.randint(8, 800), 8)])
+        yield ("weights", {"rows": [[frac(x) for x in r_] for r_ in rows], "signs": signs, "old": olds, "bases": True,
+                           "N": None if Nv is None else frac(Nv), "seed": rng.randrange(1 << 30)})
+    # small but not negligible tails: total tail mass between the 1e-14 cut-off and 1e-8
+    for _ in range(N // 8):
+        rows = []
+        for _ in range(rng.randint(1, 2)):
+            k = rng.randint(2, 4)
+            tiny = [Fraction(1, 2 ** rng.choice([28, 30, 33, 36, 40]))] * rng.randint(1, 2)
+            base = _dyadic_row(rng, k, 3)
+            while min(base) == 0:
+                base = _dyadic_row(rng, k, 3)
+            row = base + tiny
+            row[row.index(max(row))] -= sum(tiny)
+            rng.shuffle(row)
+            rows.append(row)
+        yield ("weights", {"rows": [[frac(x) for x in r_] for r_ in rows], "N": frac(Fraction(rng.choice([64, 1024, 2 ** 17, 10 ** 5, 10 ** 6]))),
+                           "seed": rng.randrange(1 << 30), "approx": True})
     # tiny tails: entries below the 1e-14 cut-off (the D5 input class)
     for _ in range(N // 10):
         rows = []
@@ -123,10 +151,30 @@ def _run_weights(payload, forced=None):
     rows = [np.array([float(Fraction(x)) for x in r]) for r in payload["rows"]]
     Nv = math.inf if payload["N"] is None else float(Fraction(payload["N"]))
     sc = ScriptedChoice(payload["seed"], forced)
+    bases = None
+    if payload.get("bases"):
+        # the public entry point on QPDBasis objects, possibly after a history: probabilities read, then coefficients re-assigned
+        from qiskit_addon_cutting.qpd import QPDBasis, generate_qpd_weights
+        from qiskit.circuit.library import XGate
+        bases = []
+        for r, sg, first in zip(payload["rows"], payload["signs"], payload["old"]):
+            final = [float(Fraction(x)) * s_ for x, s_ in zip(r, sg)]
+            maps = [([XGate()],) for _ in final]
+            if first is not None:
+                b = QPDBasis(maps, [float(Fraction(x)) for x in first])
+                _ = (list(b.probabilities), b.kappa, b.overhead)
+                generate_qpd_weights([b], math.inf)
+                b.coeffs = final
+            else:
+                b = QPDBasis(maps, final)
+            bases.append(b)
     old = np.random.choice
     np.random.choice = sc
     try:
-        out = W._generate_qpd_weights(rows, Nv)
+        if bases is not None:
+            out = W.generate_qpd_weights(bases, Nv)
+        else:
+            out = W._generate_qpd_weights(rows, Nv)
     finally:
         np.random.choice = old
     return out, sc
@@ -277,7 +325,7 @@ def oracle(kind, payload):
         return f"{len(res)} entries exceed ceil(N) = {math.ceil(Nv)}"
     dropped = sum(p for p in joint.values() if p <= ATOL * 4)
     total = sum(w for w, _ in res.values())
-    if abs(total - Nv) > tol * Nv + Nv * dropped * 2 + Nv * len(joint) * ATOL * 2:
+    if abs(total - Nv) > Fraction(1, 10 ** 12) * Nv + Nv * dropped * 2 + Nv * len(joint) * ATOL * 2:
         return f"weights sum to {float(total)} instead of N = {float(Nv)}"
     # unbiasedness of the tail: P(m) from the conditional tables actually handed to the sampler along each path
     if len(joint) <= 150 and sc.calls:
